@@ -11,7 +11,7 @@ Cost summary (proved below).
   alias one record, so the output is only bounded by `count · 65535` with `count ≤ |b|/2`:
   NOT linear, no size cap in the code (`alias21_cost`: `2n + 2L + 20` bytes allocate `≥ n·L`).
 * 4.1: the same shape before the cap (`read41Pre_cost`, three nested levels of aliasing); the cap
-  `total > 0xFFFF` (gsub.go:567) makes every SUCCESSFUL run linear (`read41_cost`), but it is
+  `total > 0xFFFF` (gsub.go:573) makes every SUCCESSFUL run linear (`read41_cost`), but it is
   tested AFTER all reads and allocations: a rejected input has already done the work.
 * 8.1: `(1 + nb + nl)` coverage reads, each capped by a constant (`|b|/2 + 65538` steps, 65537
   map entries): `count × constant`, no size cap.
@@ -424,11 +424,13 @@ theorem read21_noPanic (b : Bytes) (pos : Nat) : (read21 b pos).noPanic :=
 theorem read31_noPanic (b : Bytes) (pos : Nat) : (read31 b pos).noPanic :=
   readSeqG_noPanic _ _ _ _ _ (seqRead31_noPanic b) b pos
 
-theorem ligRead_noPanic (b : Bytes) (nsets nligs i j q : Nat) (c : Cost) (hi : i < nsets)
-    (hj : j < nligs) : (ligRead b nsets nligs i j q c).noPanic := by
-  unfold ligRead
+theorem ligRead_noPanic (fixed : Bool) (b : Bytes) (nsets nligs i j q : Nat) (c : Cost)
+    (hi : i < nsets) (hj : j < nligs) : (ligReadG fixed b nsets nligs i j q c).noPanic := by
+  unfold ligReadG
   refine bind_noPanic (readU16_noPanic _ _ _) (fun out _ => ?_)
   refine bind_noPanic (readU16_noPanic _ _ _) (fun cc _ => ?_)
+  split
+  · exact True.intro
   dsimp only
   have hlt : (cc + 65535) % 65536 < 65536 := Nat.mod_lt _ (by omega)
   generalize (cc + 65535) % 65536 = n at hlt ⊢
@@ -439,17 +441,18 @@ theorem ligRead_noPanic (b : Bytes) (nsets nligs i j q : Nat) (c : Cost) (hi : i
     chkIdx_ok _ hj, ok_bind]
   exact True.intro
 
-theorem ligSetRead_noPanic (b : Bytes) (nsets i q : Nat) (c : Cost) (hi : i < nsets) :
-    (ligSetRead b nsets i q c).noPanic := by
-  unfold ligSetRead
+theorem ligSetRead_noPanic (fixed : Bool) (b : Bytes) (nsets i q : Nat) (c : Cost)
+    (hi : i < nsets) : (ligSetReadG fixed b nsets i q c).noPanic := by
+  unfold ligSetReadG
   refine bind_noPanic (readU16Slice_noPanic _ _ _) (fun offs hoffs => ?_)
   obtain ⟨hlt, _⟩ := readU16Slice_ok hoffs
   rw [mkSlice_ok _ _ _ hlt, ok_bind, chkIdx_ok _ hi, ok_bind]
   exact rangeLoop_noPanic _ _ offs.1.length
-    (fun j q c hj => ligRead_noPanic b nsets offs.1.length i j q c hi hj) _ _ _ _ (by omega)
+    (fun j q c hj => ligRead_noPanic fixed b nsets offs.1.length i j q c hi hj) _ _ _ _ (by omega)
 
-theorem read41Pre_noPanic (b : Bytes) (pos : Nat) : (read41Pre b pos).noPanic := by
-  unfold read41Pre
+theorem read41PreG_noPanic (fixed : Bool) (b : Bytes) (pos : Nat) :
+    (read41PreG fixed b pos).noPanic := by
+  unfold read41PreG
   refine bind_noPanic (readU16_noPanic _ _ _) (fun covOff _ => ?_)
   refine bind_noPanic (readU16Slice_noPanic _ _ _) (fun offs hoffs => ?_)
   refine bind_noPanic (coverageRead_noPanic _ _) (fun cov _ => ?_)
@@ -459,14 +462,26 @@ theorem read41Pre_noPanic (b : Bytes) (pos : Nat) : (read41Pre b pos).noPanic :=
   rw [hp, ok_bind]
   dsimp only
   rw [mkSlice_ok _ _ _ (by omega), ok_bind]
-  exact bind_noPanic (rangeLoop_noPanic _ _ _ (fun i q c hi => ligSetRead_noPanic b _ i q c hi)
+  exact bind_noPanic (rangeLoop_noPanic _ _ _ (fun i q c hi => ligSetRead_noPanic fixed b _ i q c hi)
     _ _ _ _ (by omega)) (fun _ _ => True.intro)
 
-/-- `readGsub4_1` never panics (`componentCount = 0` gives a 65535-element `make`, not a panic) -/
-theorem read41_noPanic (b : Bytes) (pos : Nat) : (read41 b pos).noPanic := by
-  unfold read41
-  refine bind_noPanic (read41Pre_noPanic b pos) (fun r _ => ?_)
+theorem read41G_noPanic (fixed : Bool) (b : Bytes) (pos : Nat) :
+    (read41G fixed b pos).noPanic := by
+  unfold read41G
+  refine bind_noPanic (read41PreG_noPanic fixed b pos) (fun r _ => ?_)
   split <;> exact True.intro
+
+theorem read41Pre_noPanic (b : Bytes) (pos : Nat) : (read41Pre b pos).noPanic :=
+  read41PreG_noPanic true b pos
+
+/-- `readGsub4_1` never panics (`componentCount = 0` is an InvalidFontError) -/
+theorem read41_noPanic (b : Bytes) (pos : Nat) : (read41 b pos).noPanic :=
+  read41G_noPanic true b pos
+
+/-- the code before the zero-count repair did not panic either (`componentCount = 0` gave a
+65535-element `make`, not a negative size) -/
+theorem read41Old_noPanic (b : Bytes) (pos : Nat) : (read41Old b pos).noPanic :=
+  read41G_noPanic false b pos
 
 theorem covRead81_noPanic (site : String) (b : Bytes) (count i q : Nat) (c : Cost)
     (hi : i < count) : (covRead81 site b count i q c).noPanic := by
@@ -492,7 +507,7 @@ theorem read81_noPanic (b : Bytes) (pos : Nat) : (read81 b pos).noPanic := by
   rw [mkSlice_ok _ _ _ hll, ok_bind]
   refine bind_noPanic (rangeLoop_noPanic _ _ _ (fun i q c hi => covRead81_noPanic _ b _ i q c hi)
     _ _ _ _ (by omega)) (fun look _ => ?_)
-  obtain ⟨c', hp, _⟩ := pruneStep_spec "gsub.go:758#substituteGlyphIDs[:len(input)]" input.1
+  obtain ⟨c', hp, _⟩ := pruneStep_spec "gsub.go:764#substituteGlyphIDs[:len(input)]" input.1
     subs.1 look.2
   rw [hp, ok_bind]
   exact True.intro
@@ -663,13 +678,15 @@ theorem read31_cost_count (b : Bytes) (pos : Nat) (cov : List (Nat × Nat))
 
 /-! ### 4.1 -/
 
-theorem ligRead_cost (b : Bytes) (nsets nligs i j q : Nat) (c : Cost) (l : Lig) (c' : Cost)
-    (h : ligRead b nsets nligs i j q c = .ok (l, c')) :
+theorem ligRead_cost (fixed : Bool) (b : Bytes) (nsets nligs i j q : Nat) (c : Cost) (l : Lig)
+    (c' : Cost) (h : ligReadG fixed b nsets nligs i j q c = .ok (l, c')) :
     l.inp.length ≤ 65535 ∧ c'.steps ≤ c.steps + (2 + l.inp.length) ∧
       c'.alloc ≤ c.alloc + l.inp.length := by
-  unfold ligRead at h
+  unfold ligReadG at h
   obtain ⟨out, _, h⟩ := bind_eq_ok h
   obtain ⟨cc, _, h⟩ := bind_eq_ok h
+  split at h
+  · cases h
   dsimp only at h
   have hlt : (cc + 65535) % 65536 < 65536 := Nat.mod_lt _ (by omega)
   generalize (cc + 65535) % 65536 = n at hlt h
@@ -690,18 +707,18 @@ theorem len_le_ligSetLen (set : List Lig) : set.length ≤ ligSetLen set := by
   omega
 
 /-- one ligature set costs at most its un-aliased encoded size -/
-theorem ligSetRead_cost (b : Bytes) (nsets i q : Nat) (c : Cost) (set : List Lig) (c' : Cost)
-    (h : ligSetRead b nsets i q c = .ok (set, c')) :
+theorem ligSetRead_cost (fixed : Bool) (b : Bytes) (nsets i q : Nat) (c : Cost) (set : List Lig)
+    (c' : Cost) (h : ligSetReadG fixed b nsets i q c = .ok (set, c')) :
     (set.length ≤ 65535 ∧ ∀ l ∈ set, l.inp.length ≤ 65535) ∧
       c'.steps ≤ c.steps + ligSetLen set ∧ c'.alloc ≤ c.alloc + ligSetLen set := by
-  unfold ligSetRead at h
+  unfold ligSetReadG at h
   obtain ⟨offs, hoffs, h⟩ := bind_eq_ok h
   have h1 := readU16Slice_ok hoffs
   rw [mkSlice_ok _ _ _ h1.1, ok_bind] at h
   obtain ⟨_, _, h⟩ := bind_eq_ok h
   obtain ⟨new, hnew, hnl, hall, hs, ha⟩ := rangeLoop_ok _ _ (fun l : Lig => l.inp.length ≤ 65535)
     (fun l => 2 + l.inp.length) (fun l => l.inp.length)
-    (fun j q c l c' hl => ligRead_cost b nsets offs.1.length i j q c l c' hl) _ _ _ _ set c' h
+    (fun j q c l c' hl => ligRead_cost fixed b nsets offs.1.length i j q c l c' hl) _ _ _ _ set c' h
   rw [List.reverse_nil, List.nil_append] at hnew
   subst hnew
   have e1 := sum_map_le (fun l : Lig => 2 + l.inp.length) (fun l => 4 + 2 * l.inp.length) set
@@ -719,13 +736,13 @@ theorem ligSetRead_cost (b : Bytes) (nsets i q : Nat) (c : Cost) (set : List Lig
 /-- `readGsub4_1` BEFORE the cap is tested: cost = linear in the input plus (twice) the
 un-aliased size `lig41Total` of what was decoded — three nested levels of offsets that may
 alias (sets, ligatures; `componentCount = 0` gives 65535 components) -/
-theorem read41Pre_cost (b : Bytes) (pos : Nat) (cov : List (Nat × Nat)) (repl : List (List Lig))
-    (c : Cost) (h : read41Pre b pos = .ok ((cov, repl), c)) :
+theorem read41PreG_cost (fixed : Bool) (b : Bytes) (pos : Nat) (cov : List (Nat × Nat))
+    (repl : List (List Lig)) (c : Cost) (h : read41PreG fixed b pos = .ok ((cov, repl), c)) :
     c.steps ≤ b.length + 196612 + 2 * lig41Total repl ∧
     c.alloc ≤ b.length / 2 + 131074 + lig41Total repl ∧
     (∀ set ∈ repl, set.length ≤ 65535 ∧ ∀ l ∈ set, l.inp.length ≤ 65535) ∧
     repl.length ≤ 65535 ∧ pos + 6 + 2 * repl.length ≤ b.length := by
-  unfold read41Pre at h
+  unfold read41PreG at h
   obtain ⟨covOff, _, h⟩ := bind_eq_ok h
   obtain ⟨offs, hoffs, h⟩ := bind_eq_ok h
   obtain ⟨cv, hcov, h⟩ := bind_eq_ok h
@@ -739,7 +756,7 @@ theorem read41Pre_cost (b : Bytes) (pos : Nat) (cov : List (Nat × Nat)) (repl :
   obtain ⟨sq, hsq, h⟩ := bind_eq_ok h
   obtain ⟨new, hnew, hnl, hall, hs', ha'⟩ := rangeLoop_ok _ _
     (fun set : List Lig => set.length ≤ 65535 ∧ ∀ l ∈ set, l.inp.length ≤ 65535)
-    ligSetLen ligSetLen (fun i q c r c' hr => ligSetRead_cost b _ i q c r c' hr)
+    ligSetLen ligSetLen (fun i q c r c' hr => ligSetRead_cost fixed b _ i q c r c' hr)
     _ _ _ _ sq.1 sq.2 hsq
   cases h
   rw [hnew, List.reverse_nil, List.nil_append]
@@ -752,20 +769,20 @@ theorem read41Pre_cost (b : Bytes) (pos : Nat) (cov : List (Nat × Nat)) (repl :
     simp only [cadd, Cost.tick, Cost.mem, Cost.zero] at h1 ha ha' ⊢
     omega
 
-/-- `readGsub4_1`, SUCCESSFUL runs: the cap `total > 0xFFFF` (gsub.go:567) rescues linearity —
+/-- `readGsub4_1`, SUCCESSFUL runs: the cap `total > 0xFFFF` (gsub.go:573) rescues linearity —
 `steps ≤ |b| + 327682`, `alloc ≤ |b|/2 + 196610`.  The cap is tested after the loops, so this
 says nothing about the work done for an input that is then REJECTED (see `read41Pre_cost`). -/
-theorem read41_cost (b : Bytes) (pos : Nat) (cov : List (Nat × Nat)) (repl : List (List Lig))
-    (c : Cost) (h : read41 b pos = .ok ((cov, repl), c)) :
+theorem read41G_cost (fixed : Bool) (b : Bytes) (pos : Nat) (cov : List (Nat × Nat))
+    (repl : List (List Lig)) (c : Cost) (h : read41G fixed b pos = .ok ((cov, repl), c)) :
     lig41Total repl ≤ 65535 ∧ c.steps ≤ b.length + 327682 ∧ c.alloc ≤ b.length / 2 + 196610 := by
-  unfold read41 at h
+  unfold read41G at h
   obtain ⟨⟨⟨cv, rp⟩, c0⟩, hr, h⟩ := bind_eq_ok h
   dsimp only at h
   split at h
   · cases h
   rename_i hcap
   cases h
-  obtain ⟨hs, ha, _⟩ := read41Pre_cost b pos _ _ _ hr
+  obtain ⟨hs, ha, _⟩ := read41PreG_cost fixed b pos _ _ _ hr
   simp only [Cost.mem]
   omega
 
@@ -779,15 +796,45 @@ theorem ligSetLen_le (set : List Lig)
 
 /-- 4.1 before the cap in the shape (number of set offsets) × (per-set cost): one set is up to
 65535 ligature offsets × (4 + 2·65535) bytes of un-aliased size -/
+theorem read41PreG_cost_count (fixed : Bool) (b : Bytes) (pos : Nat) (cov : List (Nat × Nat))
+    (repl : List (List Lig)) (c : Cost) (h : read41PreG fixed b pos = .ok ((cov, repl), c)) :
+    c.steps ≤ b.length + 196624 + repl.length * 17180131328 ∧
+    c.alloc ≤ b.length / 2 + 131080 + repl.length * 8590065664 ∧
+    2 * repl.length + 6 ≤ b.length := by
+  obtain ⟨hs, ha, hall, _, hl⟩ := read41PreG_cost fixed b pos cov repl c h
+  have := sum_map_le_const ligSetLen 8590065662 repl (fun s hs => ligSetLen_le s (hall s hs))
+  unfold lig41Total at hs ha
+  omega
+
+/-- `readGsub4_1` (as it is now) BEFORE the cap is tested: see `read41PreG_cost` -/
+theorem read41Pre_cost (b : Bytes) (pos : Nat) (cov : List (Nat × Nat)) (repl : List (List Lig))
+    (c : Cost) (h : read41Pre b pos = .ok ((cov, repl), c)) :
+    c.steps ≤ b.length + 196612 + 2 * lig41Total repl ∧
+    c.alloc ≤ b.length / 2 + 131074 + lig41Total repl ∧
+    (∀ set ∈ repl, set.length ≤ 65535 ∧ ∀ l ∈ set, l.inp.length ≤ 65535) ∧
+    repl.length ≤ 65535 ∧ pos + 6 + 2 * repl.length ≤ b.length :=
+  read41PreG_cost true b pos cov repl c h
+
 theorem read41Pre_cost_count (b : Bytes) (pos : Nat) (cov : List (Nat × Nat))
     (repl : List (List Lig)) (c : Cost) (h : read41Pre b pos = .ok ((cov, repl), c)) :
     c.steps ≤ b.length + 196624 + repl.length * 17180131328 ∧
     c.alloc ≤ b.length / 2 + 131080 + repl.length * 8590065664 ∧
-    2 * repl.length + 6 ≤ b.length := by
-  obtain ⟨hs, ha, hall, _, hl⟩ := read41Pre_cost b pos cov repl c h
-  have := sum_map_le_const ligSetLen 8590065662 repl (fun s hs => ligSetLen_le s (hall s hs))
-  unfold lig41Total at hs ha
-  omega
+    2 * repl.length + 6 ≤ b.length :=
+  read41PreG_cost_count true b pos cov repl c h
+
+/-- `readGsub4_1` (as it is now), SUCCESSFUL runs: the cap `total > 0xFFFF` (gsub.go:573) rescues
+linearity — `steps ≤ |b| + 327682`, `alloc ≤ |b|/2 + 196610`.  The cap is tested after the loops,
+so this says nothing about the work done for an input that is then REJECTED (`read41Pre_cost`). -/
+theorem read41_cost (b : Bytes) (pos : Nat) (cov : List (Nat × Nat)) (repl : List (List Lig))
+    (c : Cost) (h : read41 b pos = .ok ((cov, repl), c)) :
+    lig41Total repl ≤ 65535 ∧ c.steps ≤ b.length + 327682 ∧ c.alloc ≤ b.length / 2 + 196610 :=
+  read41G_cost true b pos cov repl c h
+
+/-- the same bound held before the zero-count repair -/
+theorem read41Old_cost (b : Bytes) (pos : Nat) (cov : List (Nat × Nat)) (repl : List (List Lig))
+    (c : Cost) (h : read41Old b pos = .ok ((cov, repl), c)) :
+    lig41Total repl ≤ 65535 ∧ c.steps ≤ b.length + 327682 ∧ c.alloc ≤ b.length / 2 + 196610 :=
+  read41G_cost false b pos cov repl c h
 
 /-! ### 8.1 -/
 
@@ -828,7 +875,7 @@ theorem read81_cost (b : Bytes) (pos : Nat) (r : Rev81) (c : Cost)
   rw [mkSlice_ok _ _ _ h2.1, ok_bind] at h
   obtain ⟨look, hlook, h⟩ := bind_eq_ok h
   obtain ⟨c', hp, _, hs, _, ha, _, _⟩ := pruneStep_spec
-    "gsub.go:758#substituteGlyphIDs[:len(input)]" input.1 subs.1 look.2
+    "gsub.go:764#substituteGlyphIDs[:len(input)]" input.1 subs.1 look.2
   rw [hp, ok_bind] at h
   obtain ⟨nb, hnb, hnbl, _, hsb, hab⟩ := rangeLoop_ok _ _ (fun _ => True)
     (fun _ => b.length / 2 + 65538) (fun _ => 65537)
@@ -1187,17 +1234,26 @@ theorem wordsLoop_cases (site : String) (chk : Nat → Outcome Unit) (b : Bytes)
     | panic s => rw [hr] at he; cases he
 
 theorem ligRead_erase (b : Bytes) (nsets nligs i j q : Nat) (c : Cost) (hi : i < nsets)
-    (hj : j < nligs) : erase (ligRead b nsets nligs i j q c) = SfntV.Otl.Gsub.readLig b q := by
-  unfold ligRead SfntV.Otl.Gsub.readLig
+    (hj : j < nligs) :
+    erase (ligReadG true b nsets nligs i j q c) = SfntV.Otl.Gsub.readLig b q := by
+  unfold ligReadG SfntV.Otl.Gsub.readLig
   rcases word_cases "gsub.go:536#ReadUint16" b q with ⟨out, hout, hws⟩ | ⟨hout, hws⟩
   · rcases word_cases "gsub.go:540#ReadUint16" b (q + 2) with ⟨cc, hcc, hws2⟩ | ⟨hcc, hws2⟩
-    · rw [hout, ok_bind, hcc, ok_bind, hws, hws2]
+    · obtain ⟨_, hcclt, _⟩ := readU16_ok hcc
+      rw [hout, ok_bind, hcc, ok_bind, hws, hws2]
       dsimp only
-      have hlt : (cc + 65535) % 65536 < 65536 := Nat.mod_lt _ (by omega)
-      generalize (cc + 65535) % 65536 = n at hlt ⊢
+      by_cases hz : cc = 0
+      · subst hz
+        rw [if_pos ⟨rfl, rfl⟩]
+        rfl
+      rw [if_neg (fun h => hz h.2), if_neg (by simpa using hz)]
+      have hn : (cc + 65535) % 65536 = cc - 1 := by omega
+      rw [hn]
+      have hlt : cc - 1 < 65536 := by omega
+      generalize cc - 1 = n at hlt ⊢
       rw [mkSlice_ok _ _ _ hlt, ok_bind, show q + 2 + 2 = q + 4 by omega]
-      rcases wordsLoop_cases "gsub.go:546#ReadUint16"
-        (fun k => chkIdx "gsub.go:550#componentGlyphIDs[k]" n k) b n (q + 4) 0 []
+      rcases wordsLoop_cases "gsub.go:552#ReadUint16"
+        (fun k => chkIdx "gsub.go:556#componentGlyphIDs[k]" n k) b n (q + 4) 0 []
         ((c.tick 2).mem n) (fun k _ hk => chkIdx_ok _ (by omega)) with ⟨r, hr, hle, hr1⟩ | ⟨hr, hle⟩
       · rw [hr, ok_bind, chkIdx_ok _ hi, ok_bind, chkIdx_ok _ hj, ok_bind, chkIdx_ok _ hi,
           ok_bind, chkIdx_ok _ hj, ok_bind, if_neg (by omega)]
@@ -1263,8 +1319,8 @@ theorem ligSetV_cons {b : Bytes} {q n : Nat} {rest : List Nat}
   rw [h]
 
 theorem ligSetRead_erase (b : Bytes) (nsets i q : Nat) (c : Cost) (hi : i < nsets) :
-    erase (ligSetRead b nsets i q c) = ligSetV b q := by
-  unfold ligSetRead ligSetV readU16Slice
+    erase (ligSetReadG true b nsets i q c) = ligSetV b q := by
+  unfold ligSetReadG ligSetV readU16Slice
   rcases counted_cases "parser.go:145#ReadUint16" "parser.go:149#make([]uint16, n)"
     "parser.go:151#ReadUint16" b q c with ⟨r, n, rest, hr, hw, hnl, hrt⟩ | ⟨hr, hw⟩
   · have hrl := (readCounted_ok (r := r.1) (c' := r.2) hr).1
@@ -1310,7 +1366,7 @@ def kv41Pre (b' : Bytes) (pr : List (Nat × Nat) × List Nat) :
   | .err e => .err e
   | .panic s => .panic s
 
-/-- the cap of gsub.go:567 on values -/
+/-- the cap of gsub.go:573 on values -/
 def capV : Outcome (List (Nat × Nat) × List (List Lig)) →
     Outcome (List (Nat × Nat) × List (List Lig))
   | .ok r => if lig41Total r.2 > 0xFFFF then .err eInvalid else .ok r
@@ -1321,7 +1377,7 @@ def k41 (b : Bytes) (pos : Nat) (pr : List (Nat × Nat) × List Nat) (c : Cost) 
     Outcome ((List (Nat × Nat) × List (List Lig)) × Cost) := do
   let nsets := pr.2.length
   let c ← mkSlice "gsub.go:518#make([][]Ligature, len(ligatureSetOffsets))" nsets c
-  let repl ← rangeLoop (ligSetRead b nsets) pos pr.2 0 [] c
+  let repl ← rangeLoop (ligSetReadG true b nsets) pos pr.2 0 [] c
   pure ((pr.1, repl.1), repl.2.tick (repl.1.length + (repl.1.map List.length).sum))
 
 theorem k41_erase (b : Bytes) (pos : Nat) (pr : List (Nat × Nat) × List Nat) (c : Cost)
@@ -1368,8 +1424,8 @@ theorem gsub_read41_eq (b' : Bytes) :
 theorem read41_erase (b : Bytes) (pos : Nat) :
     erase (read41 b pos) = SfntV.Otl.Gsub.read41 (b.drop pos) := by
   rw [gsub_read41_eq, ← read41Pre_erase]
-  unfold read41
-  cases read41Pre b pos with
+  unfold read41 read41G read41Pre
+  cases read41PreG true b pos with
   | ok r =>
     obtain ⟨v, c⟩ := r
     rw [ok_bind]
@@ -1464,10 +1520,12 @@ example : read21 [0,1, 0,16, 0,2, 0,10, 0,10, 0,2, 0,7, 0,8, 0,1, 0,2, 0,5, 0,6]
 example : read31 [0,1, 0,16, 0,2, 0,10, 0,10, 0,2, 0,7, 0,8, 0,1, 0,2, 0,5, 0,6] 0
     = .ok (([(5,0), (6,1)], [[7, 8], [7, 8]]), ⟨16, 12⟩) := by decide +kernel
 /-- 4.1: one set, two ligature offsets aliasing the ligature 30 ← (cov) 7; `componentCount = 0`
-asks for 65535 components: an I/O error, not a panic -/
+is rejected as invalid; before the repair it asked for 65535 components (an I/O error here) -/
 example : read41 [0,1, 0,20, 0,1, 0,8, 0,2, 0,6, 0,6, 0,30, 0,2, 0,7, 0,1, 0,1, 0,5] 0
     = .ok (([(5,0)], [[⟨[7], 30⟩, ⟨[7], 30⟩]]), ⟨21, 11⟩) := by decide +kernel
 example : read41 [0,1, 0,18, 0,1, 0,8, 0,1, 0,4, 0,30, 0,0, 0,7, 0,1, 0,1, 0,5] 0
+    = .err "invalid" := by decide +kernel
+example : read41Old [0,1, 0,18, 0,1, 0,8, 0,1, 0,4, 0,30, 0,0, 0,7, 0,1, 0,1, 0,5] 0
     = .err "io" := by decide +kernel
 
 /-- `[input] ++ back ++ look`, substitutes, steps, alloc -/
@@ -1666,20 +1724,20 @@ theorem read81_erase (b : Bytes) (pos : Nat) :
             obtain ⟨iv, ic⟩ := input
             rw [ok_bind, mkSlice_ok _ _ _ hbl', ok_bind]
             dsimp only [erase]
-            rw [← covLoop81_erase "gsub.go:742#backtrack[i]" b pos bo.1 ((cadd subs.2 ic).mem bo.1.length)]
-            cases rangeLoop (covRead81 "gsub.go:742#backtrack[i]" b bo.1.length) pos bo.1 0 []
+            rw [← covLoop81_erase "gsub.go:748#backtrack[i]" b pos bo.1 ((cadd subs.2 ic).mem bo.1.length)]
+            cases rangeLoop (covRead81 "gsub.go:748#backtrack[i]" b bo.1.length) pos bo.1 0 []
               ((cadd subs.2 ic).mem bo.1.length) with
             | ok back =>
               obtain ⟨bv, bc⟩ := back
               rw [ok_bind, mkSlice_ok _ _ _ hll', ok_bind]
               dsimp only [erase]
-              rw [← covLoop81_erase "gsub.go:749#lookahead[i]" b pos lo.1 (bc.mem lo.1.length)]
-              cases rangeLoop (covRead81 "gsub.go:749#lookahead[i]" b lo.1.length) pos lo.1 0 []
+              rw [← covLoop81_erase "gsub.go:755#lookahead[i]" b pos lo.1 (bc.mem lo.1.length)]
+              cases rangeLoop (covRead81 "gsub.go:755#lookahead[i]" b lo.1.length) pos lo.1 0 []
                 (bc.mem lo.1.length) with
               | ok look =>
                 obtain ⟨lv, lc⟩ := look
                 obtain ⟨c', hp, _⟩ := pruneStep_spec
-                  "gsub.go:758#substituteGlyphIDs[:len(input)]" iv subs.1 lc
+                  "gsub.go:764#substituteGlyphIDs[:len(input)]" iv subs.1 lc
                 rw [ok_bind, hp, ok_bind]
                 rfl
               | err e => rfl
